@@ -84,6 +84,31 @@ CHECKS = {
             "files, on a server advertised on a non-default port.",
             "Trusted: gophermap_ref and the listing readers of vf/crawl.py.",
             "DESIGN.md §3 C09"),
+    "C10": ("exploration",
+            "runtime monitoring: offline-free history checker - an executable cache model decides hit/miss for every "
+            "request of generated histories; hits compared with per-protocol renderings recorded from a lifetime-0 twin "
+            "when the entry was written; clock advances by ageing the cache file's mtime",
+            "Held on the executions produced: 80 (quick) / 16x400 (thorough) histories of 12-40 operations "
+            "(mutations, ageing on both sides of the lifetime, requests through 9 views) on 1-3 directories, both "
+            "directory handlers, lifetimes 0 and 1000.",
+            "Trusted: the cache model (20 lines), equivalence of 'advance clock by D' and 'mtime -= D' for a freshness "
+            "test that reads only time.time() and st_mtime.",
+            "DESIGN.md §3 C10"),
+    "C11": ("fault_enumeration",
+            "runtime monitoring with fault injection: every prefix length (thorough) / stride (quick) of the cache "
+            "files the server wrote, zero-filled and garbage files, ZIP index cache files; threads reading while others "
+            "rewrite with a pause injected between truncate and dump",
+            "Fault enumeration over cut positions of real cache files; each faulted read must give the byte-identical "
+            "uncached listing. The thorough tier enumerates every prefix length.",
+            "Trusted: pause injection through a delegating stand-in for the name `pickle` in pygopherd.handlers.dir.",
+            "DESIGN.md §3 C11"),
+    "C12": ("fault_enumeration",
+            "runtime monitoring with fault injection: real special files/symlinks/hostile names and interposed "
+            "os.listdir/os.stat faults, listing compared with a twin directory without the faulty entries",
+            "Enumerates fault kind (10) x sort position (4) x directory size x directory handler (2), singles and pairs, "
+            "through 7 protocol views.",
+            "Trusted: os.listdir/os.stat interposition (hit counter checked).",
+            "DESIGN.md §3 C12"),
 }
 
 NOT_YET = "check not built yet in this session (work in progress); see DESIGN.md §3 for the planned monitor"
